@@ -19,13 +19,17 @@ from aw_query.exceptions import QueryException
 
 PROP = "C12"
 U_MAX = ST.T_MAX_MS * 1000
-PRE = 'a = query_bucket("A"); b = query_bucket("B"); '
+BID_B = 'b-ü"2'  # the second bucket's id: non-ASCII and a quote character (escaped inside query texts)
+QB = '"b-ü\\"2"'  # the same id as a query string literal
+PRE = 'a = query_bucket("A"); b = query_bucket(' + QB + '); '
 PROGRAMS = [
     ("query_bucket", 'RETURN = query_bucket("A");'),
     ("eventcount", 'RETURN = query_bucket_eventcount("A");'),
     ("query_bucket", PRE + "x = categorize(a, [[['W'], {'regex': '.'}]]); y = tag(a, [['t', {'regex': '.'}]]); z = period_union(a, b); RETURN = query_bucket(\"A\");"),
     ("eventcount", PRE + 'x = limit_events(a, 0); RETURN = query_bucket_eventcount("A");'),
-    ("find_bucket", 'RETURN = query_bucket(find_bucket("B"));'),
+    ("find_bucket", 'RETURN = query_bucket(find_bucket("b-"));'),
+    ("query_bucket-B", "RETURN = query_bucket(" + QB + ");"),
+    ("eventcount-B", "x = query_bucket(" + QB + "); RETURN = query_bucket_eventcount(" + QB + ");"),
     ("filter_keyvals", PRE + 'RETURN = filter_keyvals(a, "app", ["a0"]);'),
     ("exclude_keyvals", PRE + 'RETURN = exclude_keyvals(a, "app", ["a0"]);'),
     ("filter_keyvals_regex", PRE + 'RETURN = filter_keyvals_regex(a, "title", "t");'),
@@ -70,12 +74,12 @@ def concrete_data(i, bid):
     return {"title": "T%s%d" % (bid, i), "app": "a%d" % (i % 2), "url": "http://www.ex.org/p%d?q=1#f" % i}
 
 
-def h_query(x, bk, n, progs):
-    A = ST.sym_rows(x, "a", n)
-    B = ST.sym_rows(x, "b", n)
+def h_query(x, bk, n, progs, dmax=ST.D_MAX_US):
+    A = ST.sym_rows(x, "a", n, dmax=dmax)
+    B = ST.sym_rows(x, "b", n, dmax=dmax)
     ST.distinct(x, [r.id for r in A + B])
     be = ST.backend(bk)
-    ds = be.make(x, {"A": A, "B": B})
+    ds = be.make(x, {"A": A, BID_B: B})
     try:
         ws = x.zint("ws", 0, U_MAX)
         we = x.zint("we", 0, U_MAX)
@@ -85,12 +89,13 @@ def h_query(x, bk, n, progs):
         pi = x.choice("program", len(progs)) if len(progs) > 1 else 0
         name, text = progs[pi]
         before = be.table_rows(ds)
-        before_meta = {b: dict(ds[b].metadata()) for b in ("A", "B")}
+        before_meta = {b: dict(ds[b].metadata()) for b in ("A", BID_B)}
         direct = None
-        if name == "query_bucket":
-            direct = [row_of_event(e) for e in ds["A"].get(-1, start, end)]
-        elif name == "eventcount":
-            direct = ds["A"].get_eventcount(start, end)
+        target = BID_B if name.endswith("-B") else "A"
+        kind = name[:-2] if name.endswith("-B") else name
+        if kind in ("query_bucket", "eventcount"):
+            direct_events = [row_of_event(e) for e in ds[target].get(-1, start, end)]
+            direct = direct_events if kind == "query_bucket" else ds[target].get_eventcount(start, end)
         outcome = "value"
         try:
             res = Q2.query("q", text, start, end, ds)
@@ -103,12 +108,20 @@ def h_query(x, bk, n, progs):
         after = be.table_rows(ds)
         obl = []
         obl.append(("store-rows-unchanged", set(after) == set(before) and And([same_rows_as_sets(after[k], before[k]) for k in before])))
-        obl.append(("store-metadata-unchanged", {b: dict(ds[b].metadata()) for b in ("A", "B")} == before_meta))
+        obl.append(("store-metadata-unchanged", {b: dict(ds[b].metadata()) for b in ("A", BID_B)} == before_meta))
         # a second direct read returns what it returned before
-        if name == "query_bucket":
+        if kind == "query_bucket":
             obl.append(("query_bucket-equals-direct-windowed-read", outcome == "value" and same_rows_in_order([row_of_event(e) for e in res], direct)))
-        if name == "eventcount":
+        if kind == "eventcount":
             obl.append(("query_bucket_eventcount-equals-direct-count", outcome == "value" and C.zv(res) == C.zv(direct)))
+            # "the matching count": every event that reaches at least 2 ms into the window is counted, no event
+            # further than 2 ms from it is (the edge tolerance of windowed reads, as in C03)
+            rows_t = B if target == BID_B else A
+            TOL = 2000
+            nmust = Sum([If(And(r.end >= ws + TOL, r.start <= we - TOL), 1, 0) for r in rows_t])
+            nmay = Sum([If(And(r.end >= ws - TOL, r.start <= we + TOL), 1, 0) for r in rows_t])
+            if bk != "peewee" or dmax <= ST.D_MAX_US:
+                obl.append(("query_bucket_eventcount-counts-the-events-in-the-window", outcome == "value" and And(C.zv(res) >= nmust, C.zv(res) <= nmay)))
         # (whether and how a program fails is C17's business; here only the store matters)
         return obl, [name, outcome]
     finally:
@@ -121,11 +134,11 @@ def h_data(x, bk, progs):
     B = ST.sym_rows(x, "b", 1)
     ST.distinct(x, [r.id for r in A + B])
     be = ST.backend("memory")
-    ds = be.make(x, {"A": [], "B": []})
+    ds = be.make(x, {"A": [], BID_B: []})
     try:
         from aw_core.models import Event
 
-        for bid, rows in (("A", A), ("B", B)):
+        for bid, rows in (("A", A), (BID_B, B)):
             ds[bid].insert([C.mk_event(x, r.start, r.dur, concrete_data(i, bid), aligned=False) for i, r in enumerate(rows)])
         ws = x.zint("ws", 0, U_MAX)
         we = x.zint("we", 0, U_MAX)
@@ -135,7 +148,7 @@ def h_data(x, bk, progs):
         name, text = progs[pi]
 
         def dump():
-            return {bid: [(C.zv(e.id), S.dt_us(e.timestamp), S.td_us(e.duration), dict(e.data)) for e in ds.storage_strategy.db[bid]] for bid in ("A", "B")}
+            return {bid: [(C.zv(e.id), S.dt_us(e.timestamp), S.td_us(e.duration), dict(e.data)) for e in ds.storage_strategy.db[bid]] for bid in ("A", BID_B)}
 
         before = dump()
         outcome = "value"
@@ -162,13 +175,16 @@ def h_data(x, bk, progs):
 def harnesses(tier):
     install()
     hs = []
-    core = [p for p in PROGRAMS if p[0] in ("query_bucket", "eventcount", "find_bucket", "flood", "categorize", "period_union", "err-unknown-function", "err-unknown-bucket")]
+    core = [p for p in PROGRAMS if p[0] in ("query_bucket", "eventcount", "query_bucket-B", "eventcount-B", "find_bucket", "flood", "categorize", "period_union", "err-unknown-function", "err-unknown-bucket")]
     if tier == "quick":
         spec = [("memory", 1, PROGRAMS, "all"), ("sqlite", 1, core, "core"), ("peewee", 1, core, "core")]
     else:
         spec = [("memory", 1, PROGRAMS, "all"), ("sqlite", 1, PROGRAMS, "all"), ("peewee", 1, PROGRAMS, "all"), ("memory", 2, core, "core"), ("sqlite", 2, core, "core")]
     for bk, n, progs, label in spec:
         hs.append((Harness(PROP, "%s-n%d-%s-programs" % (bk, n, label), h_query, dict(bk=bk, n=n, progs=progs), "%s: %d programs over 2 buckets x %d events, symbolic window" % (bk, len(progs), n), split_depth=5), 7200))
+    reads = [p for p in PROGRAMS if p[0] in ("query_bucket", "eventcount", "query_bucket-B", "eventcount-B")]
+    for bk in ("memory", "sqlite"):
+        hs.append((Harness(PROP, "%s-n1-long-events-read-programs" % bk, h_query, dict(bk=bk, n=1, progs=reads, dmax=30 * ST.D_MAX_US), "%s: the reading programs over events lasting up to 30 days" % bk, split_depth=5), 3600))
     hs.append((Harness(PROP, "memory-stringdata-all-programs", h_data, dict(bk="memory", progs=PROGRAMS), "memory backend with concrete string data so regex / url / title transforms mutate what they are given", split_depth=5), 7200))
     return hs
 
@@ -181,7 +197,7 @@ def meta(chk, tier):
         "store: two buckets x %s events with symbolic instants / durations; query window start <= end, any microsecond, each edge with its own symbolic UTC offset" % ("1" if tier == "quick" else "1..2"),
     ]
     chk.stubs = ["as C02, C08, C10, C16; STARTTIME / ENDTIME travel as the opaque ISO text of the symbolic datetime and iso8601.parse_date returns it (contract)"]
-    chk.assumptions = ["program texts are concrete here (C11 / C17 make the text symbolic)", "peewee: core programs (quick) / all programs (thorough) with one event per bucket"]
+    chk.assumptions = ["the second bucket's id contains a non-ASCII character and a quote", "events of up to 30 days for the reading programs on memory and sqlite", "program texts are concrete here (C11 / C17 make the text symbolic)", "peewee: core programs (quick) / all programs (thorough) with one event per bucket"]
 
 
 def main(tier, seed, args):
